@@ -2,6 +2,7 @@ import json
 from simple_ddl_parser import DDLParser
 BODY = "CREATE TABLE t1 (a int, b varchar(10) NOT NULL)"
 CL = [
+ ("hql","clustered_by_kw","CLUSTERED BY (a, order) INTO 8 BUCKETS"), ("snowflake","cluster_by_kw","CLUSTER BY (a, order)"), ("hql","partitioned_by_kw","PARTITIONED BY (dt string, order int)"), ("postgres","partition_by_pg_kw","PARTITION BY HASH (a, set)"), ("redshift","distkey_kw","DISTKEY (comment)"),
  ("snowflake","retention0","DATA_RETENTION_TIME_IN_DAYS = 0"), ("snowflake","max_ext0","MAX_DATA_EXTENSION_TIME_IN_DAYS = 0"), ("snowflake","change_tracking_false","CHANGE_TRACKING = FALSE"),
  ("mysql","auto_increment0","AUTO_INCREMENT=0"), ("hql","clustered_by1","CLUSTERED BY (b) INTO 1 BUCKETS"), ("snowflake","retention90","DATA_RETENTION_TIME_IN_DAYS = 90"),
  ("snowflake","with_tag3","WITH TAG (cost_center='sales', pii='none', retention='1y')"), ("postgres","partition_by_pg2","PARTITION BY RANGE (a, b)"), ("postgres","partition_by_hash","PARTITION BY HASH (a)"),
